@@ -3,6 +3,7 @@ package stun
 import (
 	"errors"
 	"fmt"
+	"math"
 	"sort"
 	"sync"
 	"testing"
@@ -144,6 +145,10 @@ func (o *oracle) oracleAgentMany() {
 			d := base.Add(time.Duration(o.rng.Intn(3)) * time.Second) // 0, 1 or 2 s
 			if i%5 == 4 {
 				d = base.Add(10 * time.Second) // some stay alive
+			}
+			if i%10 == 9 {
+				// "never": far beyond what fits into 64-bit nanoseconds since 1970 (year 2554)
+				d = time.Unix(0, 0).Add(math.MaxInt64).Add(math.MaxInt64)
 			}
 			if err := a.Start(id, d); err != nil {
 				o.failf("agent with %d transactions: Start returned %v", n, err)
